@@ -212,8 +212,16 @@ impl<'a> Ser<'a> {
             }
         }
         if e.kids.is_empty() {
-            if self.site(Rw::EmptyForm, &e.name) {
-                out.push_str("></");
+            // both sites are always numbered (site ids must not depend on which rewrites are applied);
+            // the comment only has an effect inside the expanded form
+            let expand = self.site(Rw::EmptyForm, &e.name);
+            let comment_inside = self.site(Rw::Comment, &format!("{}>inside-empty", e.name));
+            if expand {
+                out.push('>');
+                if comment_inside {
+                    out.push_str("<!-- a comment -->");
+                }
+                out.push_str("</");
                 out.push_str(&qname);
                 out.push('>');
             } else {
@@ -317,6 +325,28 @@ pub struct RpcErr {
     pub app_tag: Option<String>,
     /// (element name, value)
     pub info: Vec<(String, String)>,
+    /// a child the RFC 6241 section 4.3 list does not name (vendor extension), see `EXTRAS`
+    pub extra: Option<usize>,
+}
+
+/// (inside error-info?, namespace, element name, text): children that real servers add to an
+/// rpc-error. Junos puts <source-daemon> next to the RFC children; error-info is open-ended
+/// (RFC 6241 names ok-element / err-element / noop-element for partial-operation).
+pub const EXTRAS: [(bool, &str, &str, &str); 5] = [
+    (false, NS, "source-daemon", "mgd"),
+    (false, "http://xml.juniper.net/junos/23.1R0/junos", "token", "unexpected"),
+    (true, NS, "err-element", "policy-statement"),
+    (true, NS, "ok-element", "name"),
+    (true, "urn:example:vendor", "detail", "vendor specific detail"),
+];
+
+/// `gen_rpc_error`, one time in `den` with a vendor child from `EXTRAS`
+pub fn gen_rpc_error_with_extras(ctx: &mut Ctx, uniq: usize, warning_weight: usize, den: usize) -> RpcErr {
+    let mut e = gen_rpc_error(ctx, uniq, warning_weight);
+    if ctx.chance(1, den) {
+        e.extra = Some(ctx.pick(EXTRAS.len()));
+    }
+    e
 }
 
 pub fn gen_rpc_error(ctx: &mut Ctx, uniq: usize, warning_weight: usize) -> RpcErr {
@@ -335,7 +365,7 @@ pub fn gen_rpc_error(ctx: &mut Ctx, uniq: usize, warning_weight: usize) -> RpcEr
             info.push((name.to_string(), value));
         }
     }
-    RpcErr { ty, tag, is_error, message, path, app_tag, info }
+    RpcErr { ty, tag, is_error, message, path, app_tag, info, extra: None }
 }
 
 impl RpcErr {
@@ -353,10 +383,18 @@ impl RpcErr {
         if let Some(m) = &self.message {
             e.push(E::new(NS, "error-message").text(m));
         }
-        if !self.info.is_empty() {
+        let extra = self.extra.map(|k| EXTRAS[k]);
+        if let Some((false, ns, name, text)) = extra {
+            e.push(E::new(ns, name).text(text));
+        }
+        let info_extra = extra.filter(|x| x.0);
+        if !self.info.is_empty() || info_extra.is_some() {
             let mut i = E::new(NS, "error-info");
             for (k, v) in &self.info {
                 i.push(if k == "session-id" { E::new(NS, k).tok(v) } else { E::new(NS, k).text(v) });
+            }
+            if let Some((_, ns, name, text)) = info_extra {
+                i.push(E::new(ns, name).text(text));
             }
             e.push(i);
         }
